@@ -116,10 +116,18 @@ func runC11(tier string, seed uint64) {
 				panic(fmt.Sprint("put failed ", kind, r.Status, string(r.Body)))
 			}
 			hdrs := c11Headers(n, tier, rng)
-			for _, hdr := range hdrs {
+			for hi, hdr := range hdrs {
 				var hh [][2]string
 				if hdr != "" {
 					hh = append(hh, [2]string{"Range", hdr})
+				}
+				// a client resuming a download sends a precondition along (an entity tag it holds, the date of
+				// its copy); when it does not turn the answer into 304 it changes nothing about the range
+				switch hi % 7 {
+				case 3:
+					hh = append(hh, [2]string{"If-None-Match", `"0123456789abcdef0123456789abcdef"`})
+				case 5:
+					hh = append(hh, [2]string{"If-Modified-Since", "Mon, 02 Jan 2006 15:04:05 GMT"})
 				}
 				r := do(h, Req{Method: "GET", Path: "/" + bucket + "/" + key, Header: hh})
 				p := "0"
